@@ -5,6 +5,7 @@ import (
 	"crypto/sha256"
 	"encoding/hex"
 	"fmt"
+	"math/big"
 	"sort"
 	"sync"
 	"time"
@@ -29,6 +30,37 @@ type PreParams struct {
 // the generated numbers.
 func newPreParams(data *keygen.LocalPreParams) *PreParams {
 	return &PreParams{data, time.Now().UTC()}
+}
+
+// hasAllNumbers checks that none of the numbers of the PreParams is missing.
+// Unmarshal turns a missing field into a zero number that is not nil, so an
+// empty or incomplete file (e.g. left behind by a crash during a save) passes
+// the tss-lib validation that only looks for nil values.
+func (pp *PreParams) hasAllNumbers() bool {
+	if pp.data == nil || pp.data.PaillierSK == nil {
+		return false
+	}
+
+	numbers := []*big.Int{
+		pp.data.PaillierSK.N,
+		pp.data.PaillierSK.LambdaN,
+		pp.data.PaillierSK.PhiN,
+		pp.data.NTildei,
+		pp.data.H1i,
+		pp.data.H2i,
+		pp.data.Alpha,
+		pp.data.Beta,
+		pp.data.P,
+		pp.data.Q,
+	}
+
+	for _, number := range numbers {
+		if number == nil || number.Sign() == 0 {
+			return false
+		}
+	}
+
+	return true
 }
 
 // tssPreParamsPool is a pool holding TSS pre parameters. It autogenerates
@@ -222,7 +254,8 @@ func (p *preParamsStorage) ReadAll() ([]*PersistedPreParams, error) {
 			// Validate recovered PreParams with the same function that is used
 			// in tss-lib and causes panic if the PreParams fail the validation.
 			// Ref: https://github.com/bnb-chain/tss-lib/blob/cbfa6cf63f18f471429eaab0a5f51cf72b7e9df8/ecdsa/keygen/local_party.go#L71-L73
-			if !persistedPreParams.Data.data.ValidateWithProof() {
+			if !persistedPreParams.Data.data.ValidateWithProof() ||
+				!persistedPreParams.Data.hasAllNumbers() {
 				p.logger.Errorf(
 					"PreParams recovered from file [%s] in directory [%s] failed validation",
 					descriptor.Name(),
